@@ -97,6 +97,10 @@ struct Spec {
     /// `<prefix>|<param>|{ BODY }<suffix>` (compact); BODY is translated, `<param>` is a mutable local
     /// bound by the Lean binder of the same name
     wrapper: Option<(&'static str, &'static str, &'static str)>,
+    /// conditions with an effect: `if <cond> { A } else { B }` where evaluating `<cond>` (compact) also updates a
+    /// mutable local: (cond, Lean Bool term of its value, the local, Lean term of the local's new value WHEN THE
+    /// CONDITION IS TRUE; when it is false the local is unchanged)
+    cond_effects: &'static [(&'static str, &'static str, &'static str, &'static str)],
     /// opaque tail: when the REMAINING statements of the function body (at function level, compact, joined)
     /// are exactly this text, they are not translated but stand for the given Lean term
     tail: Option<(&'static str, &'static str)>,
@@ -131,6 +135,7 @@ const SPECS: &[Spec] = &[
         opaque_lets: &[],
         effects: &[],
         wrapper: None,
+        cond_effects: &[],
         tail: None,
         note: "`self` is only consulted through `is_currently_aggregating()` (a Bool parameter).",
     },
@@ -164,6 +169,7 @@ const SPECS: &[Spec] = &[
         opaque_lets: &[],
         effects: &[],
         wrapper: None,
+        cond_effects: &[],
         tail: None,
         note: "deltas are abstract (`Δ`); the two wall-clock tests of a delta are parameter functions \
                `younger`/`older : Δ → seconds → Bool`; the four fields of `RrdpUpdatesConfig` are parameters.",
@@ -194,6 +200,7 @@ const SPECS: &[Spec] = &[
         opaque_lets: &[],
         effects: &[],
         wrapper: None,
+        cond_effects: &[],
         tail: None,
         note: "`Time` and `Duration` are whole seconds (`Int`); `Time - Duration` and `Time > Time` are the integer operations; \
                the wall clock `Time::now()` is a parameter; `self.next_update()` is the getter of `self.revision.next_update`.",
@@ -225,6 +232,7 @@ const SPECS: &[Spec] = &[
         opaque_lets: &[],
         effects: &[],
         wrapper: None,
+        cond_effects: &[],
         tail: None,
         note: "key object sets are abstract (`S`), `KeyObjectSet::requires_reissuance` is the parameter `due`; the payload of \
                `ResourceClassKeyState` is flattened into the three set parameters (each arm only reads the sets its variant has).",
@@ -268,6 +276,7 @@ const SPECS: &[Spec] = &[
         opaque_lets: &[],
         effects: &[],
         wrapper: None,
+        cond_effects: &[],
         tail: None,
         note: "ROAs (`ρ`), route origins (`ω`) and payloads (`π`) are abstract; AS numbers and prefix lengths are `Nat` \
                (`AsNumber::AS0` = 0); what the loop reads of a ROA are parameter functions (`roa_covers r` = \
@@ -312,6 +321,7 @@ const SPECS: &[Spec] = &[
         ],
         effects: &[],
         wrapper: None,
+        cond_effects: &[],
         tail: None,
         note: "FLOATS: the two `f64` ratio tests `e/c < 0.9`, `e/c > 1.1` are NOT translated but mapped to the integer \
                predicates `10·e < 9·c`, `10·e > 11·c` of the model (they are only evaluated for `c > 0`, where the exact \
@@ -356,6 +366,7 @@ const SPECS: &[Spec] = &[
             ),
         ],
         wrapper: Some(("self.store.execute(Self::lock_scope(),", "store", ")?;Ok(())")),
+        cond_effects: &[],
         tail: None,
         note: "the key-value transaction is abstract (`σ`, keys `κ`): the three store calls are parameter functions on it \
                and the function returns the final store (the closure's `Ok(())`); errors of the store (`?`) are outside the \
@@ -393,6 +404,7 @@ const SPECS: &[Spec] = &[
         opaque_lets: &[],
         effects: &[],
         wrapper: None,
+        cond_effects: &[],
         tail: None,
         note: "permission sets `S`, permissions `P` and handles `H` are abstract; `PermissionSet::has` is the parameter \
                `has`; the hash map `self.resources` enters through its look-up function `entry` (`HashMap::get`); the \
@@ -428,6 +440,7 @@ const SPECS: &[Spec] = &[
         opaque_lets: &[],
         effects: &[],
         wrapper: None,
+        cond_effects: &[],
         tail: None,
         note: "the three providers are abstract: `legacy_provider` is the optional legacy (admin token) provider and \
                `legacy_authenticate` its `authenticate`; `primary` / `unix_socket` are the RESULTS of the primary \
@@ -458,6 +471,7 @@ const SPECS: &[Spec] = &[
         opaque_lets: &[],
         effects: &[],
         wrapper: None,
+        cond_effects: &[],
         tail: None,
         note: "`u8` ↦ `Nat`; `self.max_length` and the prefix length `self.prefix.addr_len()` are parameters.",
     },
@@ -482,6 +496,7 @@ const SPECS: &[Spec] = &[
         opaque_lets: &[],
         effects: &[],
         wrapper: None,
+        cond_effects: &[],
         tail: None,
         note: "`u8` ↦ `Nat`; of `self.prefix` only the address family (the variant of `TypedPrefix`) and the length \
                `addr_len()` are consulted.",
@@ -514,6 +529,7 @@ const SPECS: &[Spec] = &[
         opaque_lets: &[],
         effects: &[],
         wrapper: None,
+        cond_effects: &[],
         tail: None,
         note: "`1u128.checked_shl(n).unwrap_or(u128::MAX)` is the parameter `shl_sat n` (the theorem instantiates it with \
                the checked shift of `Input/Checked.lean`: `2^n` for `n < 128`, else `2^128 - 1`); `saturating_sub` on `u8` \
@@ -553,6 +569,7 @@ const SPECS: &[Spec] = &[
         opaque_lets: &[],
         effects: &[],
         wrapper: None,
+        cond_effects: &[],
         tail: None,
         note: "nonces `ν`, the associated signer `σ`, errors `ε` and the accepted event list `α` are abstract; \
                `response.validate(&signer.id)` (CMS signature check against the associated signer's identity key) is the \
@@ -584,6 +601,7 @@ const SPECS: &[Spec] = &[
         opaque_lets: &[],
         effects: &[],
         wrapper: None,
+        cond_effects: &[],
         tail: None,
         note: "the event `SignerRequestMade(Nonce::new())` (fresh random nonce) is the parameter `made`.",
     },
@@ -626,6 +644,7 @@ const SPECS: &[Spec] = &[
         opaque_lets: &[],
         effects: &[],
         wrapper: None,
+        cond_effects: &[],
         tail: None,
         note: "delta elements `E` are abstract (one type for the three lists; the theorem instantiates it with the model's \
                `Elem`): `jail.is_parent_of(&x.uri)` is `in_jail x`, `self.0.contains_key(&CurrentObjectUri::from(&x.uri))` \
@@ -662,6 +681,7 @@ const SPECS: &[Spec] = &[
         opaque_lets: &[("(child_rcn,key)", "request.unpack()")],
         effects: &[],
         wrapper: None,
+        cond_effects: &[],
         tail: Some((
             "letmutchild_certificate_updates=ChildCertificateUpdates::default();child_certificate_updates.removed.push(key);\
              letcert_name=ObjectName::from_key(&key,\"cer\");info!(\"CA'{}'revokedcertificate'{}'forchild'{}'\",self.handle,cert_name,child_handle);\
@@ -675,6 +695,69 @@ const SPECS: &[Spec] = &[
                `key` through `child.used_keys.get(&key)`); `self.get_child` is a `Result` parameter; the closing statements \
                that build `ChildKeyRevoked` + `ChildCertificatesUpdated { removed: [key] }` for `my_rcn` are compared \
                verbatim and stand for `revoke_events my_rcn`.",
+    },
+    Spec {
+        id: "C05",
+        file: "src/server/ca/roa.rs",
+        ty: "Routes",
+        method: "process_updates",
+        lean: "Routes.process_updates",
+        sig: "&self,handle:&CaHandle,all_resources:&ResourceSet,updates:&RoaConfigurationUpdates->KrillResult<(Self,Vec<CertAuthEvent>)>",
+        binders: "{Rt Ev Δ π κ χ ε : Type} [DecidableEq χ] (self_routes : Rt) (errs0 : Δ) (removed : List π) (added : List κ) \
+                  (has : Rt → π → Bool) (remove : Rt → π → Rt) (add : Rt → π → Rt) (update_comment : Rt → π → Option χ → Rt) \
+                  (get : Rt → π → Option (Option χ)) (payload_of : κ → π) (comment_of : κ → Option χ) \
+                  (max_length_valid is_held : π → Bool) \
+                  (add_unknown : Δ → π → Δ) (add_invalid_length add_notheld add_duplicate : Δ → κ → Δ) (errs_empty : Δ → Bool) \
+                  (ev_removed ev_added : π → Ev) (ev_comment : π → Option χ → Ev) (mk_err : Δ → ε)",
+        args: "self_routes errs0 removed added has remove add update_comment get payload_of comment_of max_length_valid is_held \
+               add_unknown add_invalid_length add_notheld add_duplicate errs_empty ev_removed ev_added ev_comment mk_err",
+        ret: "Except ε (Rt × List Ev)",
+        num: Num::Nat,
+        names: &[
+            ("RoaDeltaError::default()", "errs0"),
+            ("vec![]", "([] : List Ev)"),
+            ("self.clone()", "self_routes"),
+            ("&updates.removed", "removed"),
+            ("&updates.added", "added"),
+            ("RoaPayloadJsonMapKey::from(*roa_payload)", "roa_payload"),
+            ("RoaPayloadJsonMapKey::from(roa_payload)", "roa_payload"),
+            ("CertAuthEvent::RouteAuthorizationRemoved{auth}", "(ev_removed auth)"),
+            ("roa_configuration.payload", "(payload_of roa_configuration)"),
+            ("roa_configuration.comment.as_ref()", "(comment_of roa_configuration)"),
+            ("roa_payload.max_length_valid()", "(max_length_valid roa_payload)"),
+            ("roa_payload.is_held_by(all_resources)", "(is_held roa_payload)"),
+            ("desired_routes.get(&auth)", "(get desired_routes auth)"),
+            ("info.comment.as_ref()", "info"),
+            ("CertAuthEvent::RouteAuthorizationComment{auth,comment:comment.cloned(),}", "(ev_comment auth comment)"),
+            ("CertAuthEvent::RouteAuthorizationAdded{auth}", "(ev_added auth)"),
+            ("delta_errors.is_empty()", "(errs_empty delta_errors)"),
+            ("Error::RoaDeltaError(handle.clone(),delta_errors)", "(mk_err delta_errors)"),
+            ("(desired_routes,res)", "(desired_routes, res)"),
+        ],
+        methods: &[],
+        state_ty: &[("delta_errors", "Δ"), ("res", "List Ev"), ("desired_routes", "Rt")],
+        elem_ty: "π;κ",
+        enums: &[],
+        structs: &[],
+        types: &[],
+        opaque_lets: &[],
+        effects: &[
+            ("delta_errors.add_unknown(*roa_payload)", "delta_errors", "add_unknown delta_errors roa_payload"),
+            ("delta_errors.add_invalid_length(roa_configuration.clone())", "delta_errors", "add_invalid_length delta_errors roa_configuration"),
+            ("delta_errors.add_notheld(roa_configuration.clone())", "delta_errors", "add_notheld delta_errors roa_configuration"),
+            ("delta_errors.add_duplicate(roa_configuration.clone())", "delta_errors", "add_duplicate delta_errors roa_configuration"),
+            ("desired_routes.add(auth)", "desired_routes", "add desired_routes auth"),
+            ("desired_routes.update_comment(&auth,comment.cloned())", "desired_routes", "update_comment desired_routes auth comment"),
+        ],
+        wrapper: None,
+        cond_effects: &[("desired_routes.remove(&auth)", "(has desired_routes auth)", "desired_routes", "remove desired_routes auth")],
+        tail: None,
+        note: "the route map `Rt`, events `Ev`, the error collection `Δ`, payloads `π`, configurations `κ` (payload + comment \
+               `Option χ`) and the error `ε` are abstract; the map key `RoaPayloadJsonMapKey::from(payload)` is the payload \
+               itself; `Routes::remove` returns whether the key was present (`has`) and removes it (`remove`); \
+               `Routes::get(..)` enters as the stored comment (`get : … → Option (Option χ)`, `info.comment.as_ref()` is \
+               that comment); the four `RoaDeltaError::add_*` calls, `Routes::add` / `update_comment`, `max_length_valid`, \
+               `is_held_by(all_resources)` and the three event constructors are parameter functions.",
     },
 ];
 
@@ -1358,10 +1441,29 @@ impl<'a> Tr<'a> {
                 Ok(format!("{p}match {scrut} with\n{p}| some {binder} =>\n{t}\n{p}| none =>\n{el}", p = pad(ind)))
             }
             E::If(i) => {
-                let cond = self.prop(&i.cond, ind)?;
+                let cc = compact(&*i.cond);
+                let ce = self.spec.cond_effects.iter().find(|(k, _, _, _)| *k == cc).copied();
+                let cond = match ce {
+                    Some((_, b, _, _)) => format!("{b} = true"),
+                    None => self.prop(&i.cond, ind)?,
+                };
                 let (nl, no) = (self.locals.len(), self.opaque.len());
                 let then_items = Self::block_items(&i.then_branch, rest);
-                let t = self.seq(&then_items, ctl, ind + 2)?;
+                let t = match ce {
+                    Some((_, _, var, new)) => {
+                        // the condition's effect happens first in the branch in which it is true
+                        match self.local(var) {
+                            Some(true) => {}
+                            _ => return Err(format!("condition effect on `{var}` which is not a `let mut` local")),
+                        }
+                        if ctl == Ctl::Value {
+                            return Err(format!("condition effect on `{var}` inside a value block"));
+                        }
+                        let inner = self.seq(&then_items, ctl, ind + 2)?;
+                        format!("{}let {} := {new}\n{inner}", pad(ind + 2), lean_ident(var))
+                    }
+                    None => self.seq(&then_items, ctl, ind + 2)?,
+                };
                 self.locals.truncate(nl);
                 self.opaque.truncate(no);
                 let else_items: Vec<Item> = match &i.else_branch {
@@ -1615,7 +1717,12 @@ impl<'a> Tr<'a> {
             self.suffix,
             self.spec.binders,
             state_binders,
-            self.spec.elem_ty,
+            {
+                // one element type per loop, separated by `;` (the last one for any further loop)
+                let tys: Vec<&str> = self.spec.elem_ty.split(';').collect();
+                let k = self.suffix.parse::<usize>().unwrap_or(1) - 1;
+                tys[k.min(tys.len() - 1)].trim()
+            },
             self.spec.ret,
             self.after_call(),
             lean_ident(&var),
@@ -1818,6 +1925,9 @@ pub fn run(repo: &Path, table: &str) -> String {
         }
         if let Some((pre, param, suf)) = s.wrapper {
             out.push_str(&format!("    only the closure body of `{pre}|{param}|{{…}}{suf}` is translated; `{param}` is a mutable local bound by the parameter of the same name\n"));
+        }
+        for (c, b, var, new) in s.cond_effects {
+            out.push_str(&format!("    condition `{c}` ↦ `{b}`, and where it is true `{var} := {new}` first\n"));
         }
         if let Some((text, lean)) = s.tail {
             out.push_str(&format!("    the closing statements `{text}` (compared verbatim) ↦ `{lean}`\n"));
